@@ -65,7 +65,8 @@ pub fn encode_chunked(payload: &[u8], sizes: &[usize], styles: &[ChunkStyle], ch
     out
 }
 
-pub const EXTENSIONS: &[&[u8]] = &[b";x", b";name=value", b"; a=b", b";q=\"quoted\"", b";a;b;c=1", b";ffff=10"];
+/// (the last two carry obs-text, i.e. octets that are not well-formed UTF-8, inside a quoted value: legal)
+pub const EXTENSIONS: &[&[u8]] = &[b";x", b";name=value", b"; a=b", b";q=\"quoted\"", b";a;b;c=1", b";ffff=10", b";note=\"caf\xe9\"", b"; v=\"\xff\xfe \xc3\""];
 
 pub fn random_styles(rng: &mut Rng) -> Vec<ChunkStyle> {
     let n = rng.range(1, 4);
